@@ -3,6 +3,8 @@ import Req.Pool.Cancel
 Helper lemmas for C08: a measure that every internal action strictly decreases
 (so internal runs are short, whatever the state), and frame facts of the actions.
 -/
+set_option linter.unusedSimpArgs false
+set_option linter.unusedVariables false
 namespace Req.Cancel
 
 def phaseRank : Phase → Nat
